@@ -132,12 +132,53 @@ async def _resume_after_cancel(seed):
         return dict(cancelled=False, exc=repr(exc))
     d = json.loads(json.dumps(handler.ctx.to_dict()))
     entered_before = sum(1 for r in rec.log if r["kind"] == "enter")
+    # second round (half of the cases): resume, let some steps complete, cancel again, serialize again, resume again
+    rounds = rng.choice([1, 2])
+    cur_rec = rec
+    for rnd in range(rounds - 1):
+        recn = E.Recorder()
+        recn.eid = cur_rec.eid
+        wfn = E.build_workflow(spec, recn)
+        hn = wfn.run(ctx=Context.from_dict(wfn, d))
+        cons = asyncio.ensure_future(_drain(hn))
+        for _ in range(rng.randint(1, 4)):
+            await vloop.settle()
+            if recn.waiting and not hn._result_task.done():
+                recn.open(rng.choice(recn.waiting))
+        await vloop.settle()
+        if hn._result_task.done():
+            await asyncio.gather(cons, return_exceptions=True)
+            return dict(cancelled=True, obs=_DoneObs(hn), rec=recn, spec=spec, entered_before=entered_before, rounds=rnd + 1)
+        await hn.cancel_run()
+        await vloop.settle()
+        try:
+            await hn
+        except BaseException:  # noqa: BLE001
+            pass
+        await asyncio.gather(cons, return_exceptions=True)
+        try:
+            d = json.loads(json.dumps(hn.ctx.to_dict()))
+        except Exception as ex:  # noqa: BLE001
+            return dict(cancelled=True, error="after cancel, resume, cancel: ctx.to_dict() raised %r" % (ex,), spec=spec,
+                        entered_before=entered_before, rounds=rnd + 2)
+        cur_rec = recn
     rec2 = E.Recorder()
-    rec2.eid = rec.eid
+    rec2.eid = cur_rec.eid
     wf2 = E.build_workflow(spec, rec2)
     ctx2 = Context.from_dict(wf2, d)
     obs = await E.drive(wf2, rec2, rng, ctx=ctx2, policy="random")
-    return dict(cancelled=True, obs=obs, rec=rec2, spec=spec, entered_before=entered_before)
+    return dict(cancelled=True, obs=obs, rec=rec2, spec=spec, entered_before=entered_before, rounds=rounds)
+
+
+class _DoneObs:
+    """a run that finished before it could be cancelled a second time"""
+
+    def __init__(self, h):
+        self.done, self.stuck, self.exception, self.result = True, False, None, None
+        try:
+            self.result = h._result_task.result()
+        except BaseException as ex:  # noqa: BLE001
+            self.exception = ex
 
 
 async def _drain(handler):
@@ -166,8 +207,11 @@ def run(ctx):
         if not r.get("cancelled"):
             continue
         resumed += 1
+        if r.get("error"):
+            rf.append(dict(seed=seed, why=r["error"]))
+            continue
         obs = r["obs"]
-        ctx.count(1, ("resume", r["entered_before"], len(r["rec"].log)))
+        ctx.count(1, ("resume", r["entered_before"], len(r["rec"].log), r.get("rounds")))
         if not obs.done or obs.exception is not None:
             rf.append(dict(seed=seed, why="a cancelled run, serialized and resumed, did not complete: done=%s exception=%r stuck=%s"
                            % (obs.done, obs.exception, obs.stuck)))
@@ -180,6 +224,8 @@ def run(ctx):
         ctx.violation("C31 fails on the real engine: %s" % f["why"],
                       dict(kind="implementation-monitor/L2", input=dict(template="fanout+cancel+resume", seed=f["seed"])))
     report_l2(ctx, fails)
+    from props._engine_common import run_runnerdiff
+    run_runnerdiff(ctx, ctx.n(60, 1500), 'C31_finished_run_is_frozen / C31_no_command_after_the_halt')
     ctx.partial.append("a synchronous step running in an executor thread cannot be cancelled by the engine; only async steps "
                        "are scheduled by the deterministic driver")
 
